@@ -154,7 +154,7 @@ MCCommit ==
 
 MCTerminate ==
     /\ pc = "ready" /\ ~Continue(Enough) /\ hist # <<>>
-    /\ LET o == [nearOne |-> (beta = cfg.one), essPost |-> 1, evid |-> 7, evidAt |-> 7, callsReported |-> calls, callsSeen |-> evals]
+    /\ LET o == [nearOne |-> (beta = cfg.one), essPost |-> 1, evid |-> 7, evidAt |-> 7, callsReported |-> calls, callsSeen |-> evals, histSame |-> TRUE]
        IN Take(TM_Clauses(o), TerminateU(o))
     /\ UNCHANGED <<nextId, atOne, ckvars>>
 
